@@ -905,7 +905,10 @@ func (g *Gen) burstAct() {
 			price = hp.Base.Int64()
 		}
 		total += price
-		m := MsgOp{T: "call", Svc: svc, Providers: []string{refOfAddr(g, b.Provider)}, Input: goodInput, FeeCap: fmt.Sprintf("%dstake", price*2), Timeout: int64(1 + g.pick(int(minI64(g.x.cur.Params.MaxRequestTimeout, 3))))}
+		if !b.Available || int64(b.QoS) > g.x.cur.Params.MaxRequestTimeout {
+			continue
+		}
+		m := MsgOp{T: "call", Svc: svc, Providers: []string{refOfAddr(g, b.Provider)}, Input: goodInput, FeeCap: fmt.Sprintf("%dstake", price*2), Timeout: int64(b.QoS)}
 		if g.chance(0.5) {
 			m.Repeated, m.Total, m.Freq = true, int64(2+g.pick(2)), uint64(m.Timeout)
 		}
